@@ -112,7 +112,7 @@ def c05(cases, res):
         for i, prev, s in steps_with_prev(case):
             if prev is None or state_of(prev) != "Selecting" or prev.snap.get("sel") != "Y" or prev.snap.get("action") != "I":
                 continue
-            if state_of(s) != "Entering" or s.res == "Commit" or not (is_key(s) or s.op[0] in ("select", "cchoose", "ckey", "cdefault")):
+            if state_of(s) != "Entering" or s.res == "Commit" or not (is_key(s) or s.op[0] in ("select", "cchoose")):
                 continue
             psyms, syms = lst(prev.snap.get("syms", "")), lst(s.snap.get("syms", ""))
             pcur, cur = int(prev.snap["cursor"]), int(s.snap["cursor"])
